@@ -146,6 +146,8 @@ type Config struct {
 	Samples    int
 	Verbose    bool
 	OrderSites []string
+	// RecursiveRLock: report a read lock taken by a thread that already holds the same lock for reading
+	RecursiveRLock bool
 	Tier       string
 }
 
@@ -177,6 +179,8 @@ type Report struct {
 	Reach        map[string]int
 	Failures     map[string]*Failure // by key (first per key)
 	FailCount    map[string]int
+	// FailAlts: further counterexamples with the same key, from other paths (tried when the first does not replay)
+	FailAlts map[string][]*Failure
 	Samples      []PathSample
 	Cover        map[string]int
 	Wall         time.Duration
@@ -843,7 +847,7 @@ func (p *Program) Explore(entry *ssa.Function, cfg *Config) *Report {
 	hopelessPaths.Store(0)
 	start := time.Now()
 	rep := &Report{Harness: entry.String(), Unsupported: map[string]int{}, IncompleteBy: map[string]int{},
-		Reach: map[string]int{}, Failures: map[string]*Failure{}, FailCount: map[string]int{}, Cover: map[string]int{}}
+		Reach: map[string]int{}, Failures: map[string]*Failure{}, FailAlts: map[string][]*Failure{}, FailCount: map[string]int{}, Cover: map[string]int{}}
 	q := newWorkQueue()
 	q.push([]int{})
 	var mu sync.Mutex
@@ -921,6 +925,10 @@ func (p *Program) Explore(entry *ssa.Function, cfg *Config) *Report {
 				for i := range out.failures {
 					f := out.failures[i]
 					rep.FailCount[f.Key]++
+					if _, ok := rep.Failures[f.Key]; ok && len(rep.FailAlts[f.Key]) < 5 {
+						g := f
+						rep.FailAlts[f.Key] = append(rep.FailAlts[f.Key], &g)
+					}
 					if _, ok := rep.Failures[f.Key]; !ok {
 						rep.Failures[f.Key] = &f
 					}
